@@ -266,6 +266,17 @@ MUTATIONS = [
      'desc': 'the edge from a fibre to its auto-inserted inline amplifier carries the nominal weight instead of the length',
      'edits': [('gnpy/core/network.py', "        network.add_edge(fiber, amp, weight=fiber.params.length)",
                 "        network.add_edge(fiber, amp, weight=0.01)")]},
+    {'id': 'c11-revert-explicit-ispart', 'props': ['C11'], 'tests': 'tests/test_path_computation_functions.py tests/test_disjunction.py',
+     'desc': 'revert of fix e50d35fe: explicit route returned without checking the listed nodes are crossed in order',
+     'edits': [('gnpy/topology/request.py', "    if total_path is not None and ispart(nodes_list, total_path):",
+                "    if total_path is not None:")]},
+    {'id': 'c11-revert-explicit-loop', 'props': ['C11'], 'tests': 'tests/test_path_computation_functions.py tests/test_disjunction.py',
+     'desc': 'revert of fix 38d738b0: an explicit route crossing a ROADM twice is returned with the repetition dropped',
+     'edits': [('gnpy/topology/request.py', """    if len(unique_ordered(path)) != len(path):
+        return None
+    return path
+""", """    return unique_ordered(path)
+""")]},
     {'id': 'c12-no-reverse-direction', 'props': ['C12'], 'tests': 'tests/test_disjunction.py',
      'desc': 'disjointness test forgets the opposite direction of a link',
      'edits': [('gnpy/topology/request.py', "                        all_disjoint += isdisjoint(pth1, pth) + isdisjoint(pth1_reversed, pth)",
